@@ -1069,3 +1069,57 @@ benign('benign-c04-disconnect-reordered', 'C04', 'crates/edp_client/src/state_ma
         self.their_challenge.take();
         self.our_challenge = None;
         self.state = ConnectionState::Disconnected;""")
+_RF_OLD = """                let len = reader.read_u16().await?;
+                trace!("Read length: {} bytes", len);
+                len as usize"""
+_RF_NEW = """                let mut len_bytes = [0u8; 2];
+                reader.read_exact(&mut len_bytes).await?;
+                let len = u16::from_be_bytes(len_bytes);
+                trace!("Read length: {} bytes", len);
+                usize::from(len)"""
+benign('benign-c05-prefix-read-exact', 'C05', FRM, _RF_OLD, _RF_NEW)
+benign('benign-c06-prefix-read-exact', 'C06', FRM, _RF_OLD, _RF_NEW)
+benign('benign-c05-tick-match', 'C05', FRM, """        if len == 0 {
+            trace!("Received 0-byte message (heartbeat/tick)");
+            return Ok(Vec::new());
+        }
+
+        if len > MAX_MESSAGE_SIZE {""", """        match len {
+            0 => {
+                trace!("Received 0-byte message (heartbeat/tick)");
+                return Ok(Vec::new());
+            }
+            _ => {}
+        }
+
+        if len > MAX_MESSAGE_SIZE {""")
+benign('benign-c08-link-arm-swapped-order', 'C08', CTL, """            Some(ControlMessageType::Link) if elements.len() == 3 => Ok(ControlMessage::Link {
+                from_pid: mem::take(&mut elements[1]),
+                to_pid: mem::take(&mut elements[2]),
+            }),""", """            Some(ControlMessageType::Link) if elements.len() == 3 => {
+                let to_pid = mem::take(&mut elements[2]);
+                let from_pid = mem::take(&mut elements[1]);
+                Ok(ControlMessage::Link { from_pid, to_pid })
+            }""")
+benign('benign-c09-dup-test-match', 'C09', 'crates/edp_client/src/fragmentation.rs', """                    if self.fragments[idx].is_some() {
+                        trace!("Received duplicate fragment {} - ignoring", fragment_id);
+                    } else {
+                        self.fragments[idx] = Some(data);
+                        self.received_count += 1;
+                    }""", """                    match &self.fragments[idx] {
+                        Some(_) => trace!("Received duplicate fragment {} - ignoring", fragment_id),
+                        None => {
+                            self.received_count += 1;
+                            self.fragments[idx] = Some(data);
+                        }
+                    }""")
+benign('benign-c03-trailing-len-test', 'C03', DEC, """    if !remaining.is_empty() {
+        ctx.byte_offset = original_len - remaining.len();""", """    if remaining.len() != 0 {
+        ctx.byte_offset = original_len - remaining.len();""")
+benign('benign-c06-tick-len-test', 'C06', 'crates/edp_client/src/connection.rs', """            if data.is_empty() {
+                trace!("Received tick (heartbeat), continuing...");
+                continue;
+            }""", """            if data.len() < 1 {
+                trace!("Received tick (heartbeat), continuing...");
+                continue;
+            }""")
